@@ -808,5 +808,25 @@ func TestVerifC11Random(t *testing.T) {
 		}
 		progs = append(progs, p)
 	}
+	if n > 0 && os.Getenv("VERIF_TIER") == "thorough" {
+		// (thorough tier only: judging it costs the monitor several minutes)
+		// one fixed FLAT program per run at scale: 1300 scope-level buffers whose size term names one and the same
+		// object (state that a parser accumulates per table - counters, stacks, budgets - only shows with many
+		// references in one table; the random programs above have at most a few hundred objects)
+		one := func(s string) *c11Form { return &c11Form{Segs: []string{s}} }
+		toks := []c11Tok{{K: "decl", Kind: "Name", F: one("LEN0"), Args: []c11Term{{T: "byte", N: []int{2}}}}}
+		for i := 0; i < 1300; i++ {
+			seg := fmt.Sprintf("%c%03d", 'B'+byte(i/1000), i%1000)
+			toks = append(toks, c11Tok{K: "decl", Kind: "Name", F: one(seg),
+				Args: []c11Term{{T: "buffer", A: []c11Term{{T: "ref", F: one("LEN0")}}, N: []int{1, 2}}}})
+		}
+		toks = append(toks, c11Tok{K: "endtable"})
+		raw, _ := json.Marshal(toks)
+		p := c11Prog{ID: 1000002 + n, Raw: raw}
+		if err := json.Unmarshal(raw, &p.Toks); err != nil {
+			t.Fatal(err)
+		}
+		progs = append(progs, p)
+	}
 	c11RunParallel(t, progs, os.Getenv("C11_RAND_OUT"))
 }
